@@ -373,6 +373,10 @@ impl RawPeer {
                     b.extend(std::iter::repeat(0xEEu8).take(plen));
                 }
                 self.emit(to, &b);
+                // (a packet that was in sequence uses its number up)
+                if intent.get("advance").and_then(|v| v.as_bool()).unwrap_or(false) {
+                    self.seq_nr = self.seq_nr.wrapping_add(1);
+                }
             }
             "drain" | "" => {}
             _ => {}
